@@ -33,6 +33,9 @@ MANIFEST = dict(
          "C15_skeleton_shape: the control flow of the real function(s) calling patch/restore, regenerated from the clang AST, passes an "
          "abstract interpretation (never leaves a voice iteration or the function patched, never patches/restores twice). "
          "C15_invloop_in_loop: update_invloop stores only inside [lps,lpe) (sustain loop if that is all the sample has); "
+         "C15_invloop_fields_wide/_c_refines/_c_run: with the DECLARED C types of xc->invloop (regenerated from the AST) the function equals "
+         "the unbounded model on every reachable state and stays in the loop for any number of ticks (the position field must hold every "
+         "loop bound); C15_patch_index_fields_wide; C15_no_local_static (no writable function-local static on writer paths); "
          "C15_invloop_off_silent: never at speed 0; C15_invloop_target_coherent: the sample it writes (xc->smp) stays the one the "
          "channel's voice plays or has queued over every history of notes, Protracker swaps, hot swaps, voice losses. C15_writers: every "
          "store into pattern/track/event/instrument/envelope/sample storage made by ANY function reachable from a post-load API call "
@@ -41,7 +44,8 @@ MANIFEST = dict(
          "loader-only extras constructors). Tied to /repo on every run by the regenerated store-site list, control skeleton and constants, "
          "by differential correspondences (real init/reset, adjust_voice_end, softmixer with intercepted kernels, update_invloop observed "
          "per tick vs the native Lean driver) and by a direct digest oracle over all module tables incl. guard frames after every API "
-         "call, which yields replayable failing inputs.",
+         "call (corpus modules with structure-aware variations, plus synthetic long-loop MODs rendered for tens of thousands of ticks), "
+         "which yields replayable failing inputs.",
     note="Proof-level: patch/restore protocol and bounds, control skeleton (model + generated shape), invert-loop range, writer list. "
          "Not proved, only tied by sampling: that the C functions compute what the hand-written models say (correspondence on the cases "
          "run), and the soundness of the token abstraction of C15_skeleton_shape (structured control flow only; goto/switch/?: around "
@@ -61,7 +65,8 @@ NS = "Xmp.Wrap."
 REQUIRED = [NS + n for n in ("C15_restore", "C15_patch_frame", "C15_reset_frame", "C15_patch_in_bounds", "C15_guard_aligned",
                              "C15_voice_bounds", "C15_patch_in_bounds_wf",
                              "C15_skeleton_shape", "C15_invloop_in_loop", "C15_invloop_count_inv", "C15_invloop_off_silent_step",
-                             "C15_invloop_off_silent", "C15_invloop_target_coherent", "C15_invloop_unlooped_silent", "C15_skeleton_voice", "C15_skeleton_kernel_view", "C15_skeleton", "C15_writers",
+                             "C15_invloop_off_silent", "C15_invloop_target_coherent", "C15_invloop_fields_wide", "C15_invloop_c_refines", "C15_invloop_c_inv",
+                             "C15_invloop_in_loop_c", "C15_invloop_c_run", "C15_patch_index_fields_wide", "C15_no_local_static", "C15_invloop_unlooped_silent", "C15_skeleton_voice", "C15_skeleton_kernel_view", "C15_skeleton", "C15_writers",
                              "C15_writers_nonvacuous")]
 
 
@@ -310,16 +315,25 @@ def check_inv(ck, inv_lines, stats):
         ck.cov["traces_validated_against_impl"] += 1
 
 
-def do_digest(ck, exe, mods, nshards, ncases, nops, stats):
+def long_shard(args):
+    exe, cs, nticks = args
+    rc, out, err = vlib.run_exe(exe, ["long", str(cs), str(nticks)], timeout=3000)
+    return rc, out.decode("latin-1"), err
+
+
+def do_digest(ck, exe, mods, nshards, ncases, nops, stats, nlong=0, nticks=0):
     # regression corpus first
     reg = [(exe, cs, n, os.path.join(vlib.REPO, p)) for cs, n, p in REGRESSION if os.path.exists(os.path.join(vlib.REPO, p))]
     shards = []
     for i in range(nshards):
         ms = [mods[(i * ncases + j) % len(mods)] for j in range(ncases)]
         shards.append((exe, ck.seed * 15485863 + i, ncases, nops, ms))
-    results = vlib.pmap(regression_shard, reg) + vlib.pmap(digest_shard, shards)
+    # long runs on synthetic long-loop modules (long histories x large geometry), longest jobs first
+    longs = [(exe, ck.seed * 32452843 + i, nticks) for i in range(nlong)]
+    jobs = [(long_shard, a) for a in longs] + [(regression_shard, a) for a in reg] + [(digest_shard, a) for a in shards]
+    results = vlib.pmap(lambda j: j[0](j[1]), jobs)
     inv_lines = []
-    for (rc, out, err), sh in zip(results, reg + shards):
+    for (rc, out, err), sh in zip(results, longs + reg + shards):
         cur = None
         for l in out.splitlines():
             if l.startswith("case "):
@@ -328,6 +342,7 @@ def do_digest(ck, exe, mods, nshards, ncases, nops, stats):
                 stats["digest_cases_mutated_events"] += " mut=0" not in l
                 stats["digest_cases_extreme_c5spd"] += not l.endswith("c5spd=0")
                 stats["digest_cases"] += 1
+                stats["digest_long_synthetic_cases"] += f[3] == "@synthetic"
                 stats["digest_cases_with_invloop_fx"] += "invloopfx=1" in l
                 stats["digest_interp_" + re.search(r"interp=(\d)", l).group(1)] += 1
             elif l.startswith("inv ") and cur and len(l.split(" ")) == 25:
@@ -346,7 +361,8 @@ def do_digest(ck, exe, mods, nshards, ncases, nops, stats):
                     stats["digest_" + k] += int(v)
         if rc != 0:
             sig = vlib.sanitizer_signature(err)
-            ck.violation("harness-abort:" + sig, {"cmd": ["c15_digest", "run" if len(sh) == 5 else "one"] + [str(x) for x in sh[1:4]] + (sh[4] if len(sh) == 5 else []),
+            mode = "run" if len(sh) == 5 else ("long" if len(sh) == 3 else "one")
+            ck.violation("harness-abort:" + sig, {"cmd": ["c15_digest", mode] + [str(x) for x in sh[1:4]] + (sh[4] if len(sh) == 5 else []),
                                                   "last_case": cur, "stderr": err[-3000:]},
                          "digest oracle aborted (rc=%d): %s" % (rc, sig))
     check_inv(ck, inv_lines, stats)
@@ -388,7 +404,8 @@ def run(ck):
             ck.rng.shuffle(lst)
             for k, j in enumerate(range(off, len(dmods), 3)):
                 dmods[j] = lst[k % len(lst)]
-    do_digest(ck, dexe, dmods, 16, 24 if quick else 200, 150 if quick else 500, stats)
+    do_digest(ck, dexe, dmods, 16, 24 if quick else 200, 150 if quick else 500, stats,
+              nlong=6 if quick else 32, nticks=48000 if quick else 140000)
     for k, v in sorted(stats.items()):
         ck.note(k, v)
     ck.cov["rule"] = ("wrap: one case = (8/16 bit, mono/stereo, len, start<=end<=len with edges favoured, loop flag, first-loop, bidir, "
@@ -407,7 +424,10 @@ def replay(ck, rp):
     r = rp.get("replay", {})
     if isinstance(r, dict) and "case_seed" in r:
         exe = vlib.build_harness("c15_digest", ["c15_digest.c"])
-        rc, out, err = vlib.run_exe(exe, ["one", str(r["case_seed"]), str(r["nops"]), r["path"], "-v"] + (["-g1"] if r.get("gen") == 1 else []))
+        if r["path"] == "@synthetic":
+            rc, out, err = vlib.run_exe(exe, ["long", str(r["case_seed"]), str(r["nops"])], timeout=3000)
+        else:
+            rc, out, err = vlib.run_exe(exe, ["one", str(r["case_seed"]), str(r["nops"]), r["path"], "-v"] + (["-g1"] if r.get("gen") == 1 else []))
         text = out.decode("latin-1")
         fails = [l for l in text.splitlines() if l.startswith("o_fail")]
         print("\n".join(text.splitlines()[-25:]))
